@@ -108,3 +108,42 @@ package cache
 //@   opt nopanic=off
 //@   ensures never_stored_is_a_miss [C12]: !old(core.PathExists(cacheDir)) ==> !result0 && result1 == nil
 //@   callsite fs.RecursiveLink from_the_entry [C12]: arg_from == filepath.Join(cacheDir, out)
+
+// ---------------------------------------------------------------------------------------------
+// Remote and command caches store complete artifacts or nothing (C13)
+//
+// Ghost `failed`: some output could not be read while the archive was being written (the walk returned an
+// error). A partial archive must then be aborted, never ended as if it were complete.
+//@ assume func storeFile
+//
+// Command cache: the store command is killed (cancel) as soon as an output cannot be read.
+//@ func write
+//@   requires target != nil && !failed
+//@   invariant "range files" no_failure_so_far: !failed
+//@   opt nopanic=off
+//@   opt callbacks=pure
+//@   callsite fs.Walk trackresult failed bool: failed || result != nil
+//@   ensures partial_archive_is_aborted [C13]: failed ==> called("cancel")
+//@   returnsite partial_archive_is_aborted_at_return [C13]: !failed || called("cancel")
+//
+// HTTP cache: the same requirement. The real code only logs the error and lets the deferred Close calls end
+// the gzip/tar stream normally, so the server receives a well-formed but incomplete archive: a recorded
+// known finding (region: the walk failed).
+//@ spec walkFailed(failed bool) bool = failed
+//@ func (httpCache).write
+//@   requires target != nil && !failed
+//@   opt nopanic=off
+//@   callsite fs.Walk trackresult failed bool: failed || result != nil
+//@   ensures partial_archive_is_aborted [C13 except=walkFailed]: failed ==> called("abort")
+//
+// Retrieval: an entry that cannot be unpacked completely is a miss.
+//@ func readTar
+//@   opt nopanic=off
+//@   opt panics=allowed
+//@   ensures error_is_a_miss [C13]: result1 != nil ==> !result0
+//@   ensures hit_is_complete [C13]: result0 ==> result1 == nil
+//@ func (httpCache).retrieve
+//@   requires cache != nil
+//@   opt nopanic=off
+//@   opt panics=allowed
+//@   ensures error_is_a_miss [C13]: result1 != nil ==> !result0
